@@ -147,6 +147,24 @@ def _c11_case(shape, text, preemptions, max_step, wf_name='wf',
                           dict(info, signature=sig + ':report-count'))
                     pt = [t for t in w.rows('TaskExecution')
                           if t['id'] == x['task_execution_id']][0]
+                    if (pt['spec'] or {}).get('with-items'):
+                        # the task aggregates its items
+                        sibs = [y for y in w.rows('WorkflowExecution')
+                                if y['task_execution_id'] == pt['id']]
+                        if all(y['state'] in TERMINAL for y in sibs) and \
+                                pt['state'] in TERMINAL + ('RUNNING',):
+                            want_ = 'CANCELLED' if any(
+                                y['state'] == 'CANCELLED' for y in sibs) \
+                                else ('ERROR' if any(y['state'] == 'ERROR'
+                                                     for y in sibs)
+                                      else 'SUCCESS')
+                            reach('items-all-finished')
+                            check(pt['state'] == want_,
+                                  'with-items-parent-task-state-wrong',
+                                  dict(info, signature=sig + ':items-parent',
+                                       parent=pt['state'], want=want_,
+                                       kids=[y['state'] for y in sibs]))
+                        continue
                     check(pt['state'] == x['state'],
                           'parent-task-state-differs-from-sub-workflow',
                           dict(info, signature=sig + ':parent-task',
@@ -171,7 +189,8 @@ def _c11_case(shape, text, preemptions, max_step, wf_name='wf',
                'mistral.engine.tasks:Task.complete'],
     bounds={'quick': 'shapes fork_join, chain, two branches with the pause '
                      'engine command (commands waiting in the backlog when '
-                     'the stop arrives), parent+child sub-workflow '
+                     'the stop arrives), parent+child sub-workflow, a '
+                     'with-items task over two sub-workflows '
                      '(stop on the root or on the child); stop state '
                      'symbolic in {SUCCESS, ERROR, CANCELLED}; stop position '
                      'symbolic over the first 10 deliveries; optionally '
@@ -207,3 +226,12 @@ def c11_e(ctx):
     yield Case('subwf/child', _c11_case('subwf', shapes.SUBWF, k, ms,
                                         wf_name='parent', target='child'),
                needed=['stopped', 'quiescent', 'sub-finished'])
+    from vt.harness import C10
+    yield Case('items/root', _c11_case('items', C10.TREE_ITEMS, k, ms,
+                                       wf_name='parent'),
+               needed=['stopped', 'quiescent', 'has-subtree',
+                       'sub-finished'])
+    yield Case('items/child', _c11_case('items', C10.TREE_ITEMS, k, ms,
+                                        wf_name='parent', target='child'),
+               needed=['stopped', 'quiescent', 'sub-finished',
+                       'items-all-finished'])
